@@ -145,7 +145,8 @@ RULES = {
                 nontrivial_text="at least three steps of the history succeeded"),
     "C07": dict(what="pair-hash invocation counts: second request, single mutations with pre-hashed values, expanding appends at limits 2^20..2^40", nontrivial=HIST_NT,
                 rejudge=rejudge_c07, nontrivial_text="at least three steps of the history succeeded"),
-    "C08": dict(what="tree.Merkleize on (count, limit) grids and every flat HashFn helper through a generic flat value; model root vs SSZ spec root"),
+    "C08": dict(what="tree.Merkleize on (count, limit) grids and every flat HashFn helper through a generic flat value; model root vs SSZ spec root; the helpers again from several goroutines on shared read-only values under the race detector",
+                race_extra="TestC08Race"),
     "C09": dict(what="flat codec: encoding, ByteLength, decoding into fresh / reused destinations"),
     "C10": dict(what="flat codec decoding accept/reject/panic and re-encoding on exhaustive small strings and corruptions",
                 nontrivial=lambda inp, obs: obs.startswith("res=OK"),
@@ -170,7 +171,7 @@ RULES = {
         what="bitlist/bitvector checks and helpers on byte strings x limits",
         nontrivial=lambda inp, obs: True,
         assumptions=["GetBit/SetBit are called only with in-range indices except in the panic stream"]),
-    "C19": dict(what="MarshalText/JSON, UnmarshalText/JSON of every uint width, hex marshalling and fixed-size hex decoding",
+    "C19": dict(race_extra="TestC19Race", what="MarshalText/JSON, UnmarshalText/JSON of every uint width, hex marshalling and fixed-size hex decoding; the conversions again from several goroutines under the race detector",
                 nontrivial=lambda inp, obs: True),
     "C20": dict(what="bytes allocated per decode call (runtime.MemStats.TotalAlloc) by view and flat decoders on hostile and corrupted inputs vs the model's charge and the proved bound", extra=extra_c20,
                 nontrivial=lambda inp, obs: True,
